@@ -473,29 +473,46 @@ func getCrashLoopingContainers(obj map[string]interface{}) ([]string, bool, erro
 		return containerNames, found, err
 	}
 	for _, item := range css {
-		cs := item.(map[string]interface{})
+		// Entries that do not have the expected shape are skipped, like
+		// entries with missing fields.
+		cs, ok := item.(map[string]interface{})
+		if !ok {
+			continue
+		}
 		n, found := cs["name"]
 		if !found {
 			continue
 		}
-		name := n.(string)
+		name, ok := n.(string)
+		if !ok {
+			continue
+		}
 		s, found := cs["state"]
 		if !found {
 			continue
 		}
-		state := s.(map[string]interface{})
+		state, ok := s.(map[string]interface{})
+		if !ok {
+			continue
+		}
 
 		ws, found := state["waiting"]
 		if !found {
 			continue
 		}
-		waitingState := ws.(map[string]interface{})
+		waitingState, ok := ws.(map[string]interface{})
+		if !ok {
+			continue
+		}
 
 		r, found := waitingState["reason"]
 		if !found {
 			continue
 		}
-		reason := r.(string)
+		reason, ok := r.(string)
+		if !ok {
+			continue
+		}
 		if reason == "CrashLoopBackOff" {
 			containerNames = append(containerNames, name)
 		}
